@@ -66,7 +66,7 @@ PROP_GROUPS = {
     'C02': (['arith'], ('O3', 'O4', 'CTRL', 'RESHAPE')),
     'C07': (['linalg', 'det'], ('O3', 'O4', 'CTRL', 'RESHAPE')),
     'C08': (['factor'], ('O3', 'O4', 'CTRL', 'RESHAPE')),
-    'C12': (['elementary', 'helpers', 'arith', 'linalg', 'factor', 'maps'], ('O1', 'O2', 'C12.D')),
+    'C12': (['elementary', 'helpers', 'arith', 'linalg', 'factor', 'maps'], ('O1', 'O2', 'C12.D', 'CTRL')),
     'C13': (['maps'], ('O1', 'O3')),
 }
 
